@@ -348,6 +348,23 @@ func genC16(r *core.Run, i int) *c16Case {
 		c.Dump = nil
 		c.Path = []string{"-full-path", "-rel-path", ""}[(i/6)%3]
 	}
+	if i%11 == 7 {
+		// buckets of 11, 1 and 1 goroutines and expressions anchored at both ends: "1: ..." must not admit "11: ..."
+		c.Race, c.FS = nil, false
+		d := &gen.Dump{F: gen.Format{FileIndent: "\t"}}
+		add := func(id int, state, fn string) {
+			d.Gs = append(d.Gs, gen.Goroutine{ID: id, State: state, Frames: []gen.Frame{{Sym: gen.Sym{Pkg: "main", Name: fn}, File: "/src/app/" + fn + ".go", Line: 10, PCOff: 0x1d}}})
+		}
+		add(1, "running", "main")
+		for k := 0; k < 11; k++ {
+			add(10+k, "select", "worker")
+		}
+		add(30, "select", "reader")
+		add(31, "IO wait", "poller")
+		c.Dump = d
+		c.Filter = []string{"^1: ", `^1: select\n$`, `\A1: select\n\z`, `^11: select\n$`, `^1: select`, `(?m)^1: select$`, `^1: IO wait\n$`}[rr.Intn(7)]
+		return c
+	}
 	if i%2 == 0 {
 		// a regexp drawn from what headers contain
 		c.Filter = []string{"select", "chan receive|IO wait", "locked", "^1: ", "minutes", ".", "Created by", "^[2-9]", "zzzz", "Race write", "running|finished", `\[`}[rr.Intn(12)]
